@@ -57,19 +57,34 @@ func (c *Check) Spec(rule string, m Macros, s FnSpec) {
 		c.HasGuard(fn, rule, "guard:"+g.Label, m, g.Want)
 	}
 	for _, e := range s.Effects {
+		// call sites are taken as written; when their number does not fit, a site whose argument is a merge is
+		// read as one instance per incoming edge (constants first, then any value)
 		var sites []*CallSite
-		for _, cs := range c.Calls(fn, m.X(e.Callee)) {
-			sites = append(sites, c.P.Instances(cs)...)
-		}
-		if e.Filter != "" {
-			f := m.X(e.Filter)
-			var keep []*CallSite
-			for _, cs := range sites {
-				if strings.Contains(callString(c.P, cs), f) {
-					keep = append(keep, cs)
+		for mode := 0; mode < 3; mode++ {
+			sites = nil
+			for _, cs := range c.Calls(fn, m.X(e.Callee)) {
+				switch mode {
+				case 0:
+					sites = append(sites, cs)
+				case 1:
+					sites = append(sites, c.P.Instances(cs)...)
+				case 2:
+					sites = append(sites, c.P.InstancesAny(cs)...)
 				}
 			}
-			sites = keep
+			if e.Filter != "" {
+				f := m.X(e.Filter)
+				var keep []*CallSite
+				for _, cs := range sites {
+					if strings.Contains(callString(c.P, cs), f) {
+						keep = append(keep, cs)
+					}
+				}
+				sites = keep
+			}
+			if len(sites) == e.N || (e.N < 0 && len(sites) >= 1) {
+				break
+			}
 		}
 		construct := funcName(fn) + "/effect:" + e.Label
 		pos := fn.Pos()
